@@ -606,6 +606,7 @@ theorem sim_step (d d' : Db) (h : DbSim d d') (op : Op) :
   | kput c k x e => exact sim_kPut d d' h c k x e
   | kdel c k => exact sim_kDel d d' h c k
   | ckpt ts ord nm => exact sim_doCkpt d d' h ts ord nm
+  | ackpt ts ord nm => exact sim_doCkpt d d' h ts ord nm
   | rollback x o => exact sim_doRollback d d' h x o
   | ckdel x o => exact sim_doCkDel d d' h x o
   | setmax n => exact ⟨rfl, ⟨h.st, h.eng, h.arch, h.nextCk, rfl⟩⟩
